@@ -963,6 +963,10 @@ func (rule *RuleExpression) checkMatrix(m *Matrix) *ObjectType {
 				o = merged
 			} else {
 				o.Loose()
+				// The element is of unknown type. It can override any property of the matrix
+				for n := range o.Props {
+					o.Props[n] = AnyType{}
+				}
 			}
 			continue
 		}
@@ -972,6 +976,9 @@ func (rule *RuleExpression) checkMatrix(m *Matrix) *ObjectType {
 			if t, ok := o.Props[n]; ok {
 				// When the combination exists in 'matrix' section, merge type with existing one
 				ty = t.Merge(ty)
+			} else if o.Mapped != nil {
+				// An earlier element of unknown type may define this property too
+				ty = o.Mapped.Merge(ty)
 			}
 			o.Props[n] = ty
 		}
